@@ -7,7 +7,7 @@ import ast
 from ..cfg import CFG
 from ..model import AnalysisError, chain, unparse
 from ..report import RuleResult
-from ._c11_sem import Facts, call_name, closer, cm_released_args, falsy_result, field_resets, handlers_around, node_calls, node_of, path_text, protected, reach3, ReleaseModel, resolve_callee, self_field_meaning, truthy_source
+from ._c11_sem import Facts, must_pass, node_exprs, own_nodes, surely_evaluated, call_name, closer, cm_released_args, falsy_result, field_resets, handlers_around, node_calls, node_of, path_text, protected, reach3, ReleaseModel, resolve_callee, self_field_meaning, truthy_source
 
 
 def _is_h5py_file(p, mod, ch) -> bool:
@@ -496,7 +496,100 @@ def rule_gate(ctx) -> RuleResult:
         res.inst(f"_io_call: `return None` only under `self._geoh5 is None` (line {n.lineno})", ok=ok)
         if not ok:
             res.find("Workspace", "_io_call", "silent None result", f"{io.module.relpath}:{n.lineno}", "a closed workspace silently returns None")
+    # ... and no other answer either: once there is a handle object, every way out of the gateway that the gateway itself decides
+    # (a `raise` of its own, a `return`) comes after the raising handle property was evaluated on that path - a test that can
+    # short-circuit around the property (a cheaper operand first) lets a closed workspace get the answer meant for an open one
+    raising = _raising_properties(ctx)
+    reads_handle = lambda e: isinstance(e, ast.Attribute) and e.attr in raising and isinstance(e.value, ast.Name) and e.value.id == sn  # noqa: E731
+
+    def evaluates_handle(n, outcome):
+        if n.kind == "test":
+            return any(reads_handle(x) for x in surely_evaluated(n.ast, outcome))
+        return any(reads_handle(x) for e in node_exprs(n) for x in surely_evaluated(e, None))
+
+    unchecked = must_pass(g, has_handle, evaluates_handle)
+    answers = [n for n in g.nodes if n.kind in ("return", "raise") and n in unchecked and not evaluates_handle(n, None)]
+    ok = not answers
+    res.inst("_io_call: every answer of the gateway comes after the raising handle property was evaluated", nontrivial=True, ok=ok)
+    if not ok:
+        res.find("Workspace", "_io_call", "an answer is given before the closed-file check", f"{io.module.relpath}:{answers[0].lineno}",
+                 "on some path the gateway raises / returns without having evaluated the handle property that raises on a closed file "
+                 "(a test short-circuits around it): a call made after close() gets that answer instead of the closed-file error")
     return res
+
+
+def _raising_properties(ctx) -> set:
+    """Names of the properties of Workspace whose getter raises Geoh5FileClosedError (the raising handle property)."""
+    ws = ctx.p.cls("Workspace")
+    out = set()
+    for name, pr in ws.props.items():
+        if pr.getter is not None and any(isinstance(r, ast.Raise) and "Geoh5FileClosedError" in unparse(r) for r in ast.walk(ctx.view(pr.getter).node)):
+            out.add(name)
+    return out
+
+
+def _is_gateway_use(c, sn, raising) -> bool:
+    return isinstance(c.func, ast.Attribute) and c.func.attr == "_io_call" and isinstance(c.func.value, ast.Name) and c.func.value.id == sn
+
+
+def rule_stale(ctx) -> RuleResult:
+    res = RuleResult(
+        "C11.STALE",
+        "C11",
+        "after closing, a call that needs the file does not serve what is cached in memory: in every method of Workspace that reads "
+        "the file through the gateway, a `return` of state held by an argument (an attribute path of a parameter: cached children, "
+        "cached values) comes, on every path where that argument is on file, after the gateway (or the raising handle property) "
+        "was consulted",
+        floor=5,
+    )
+    p = ctx.p
+    ws = p.cls("Workspace")
+    raising = _raising_properties(ctx)
+    members = list(ws.methods.values()) + [f for q in ws.props.values() for f in (q.getter, q.setter) if f is not None]
+    for fi in members:
+        sn = fi.self_name
+        if sn is None:
+            continue
+        # (on the normalised view: the read may sit in a helper the method calls)
+        v = ctx.view(fi)
+        reads = [c for c in ast.walk(v.node) if isinstance(c, ast.Call) and _is_gateway_use(c, sn, raising) and c.args and isinstance(c.args[0], ast.Attribute)
+                 and _is_reader_entry(p, fi, c.args[0])]
+        if not reads:
+            continue
+        g = CFG(v.node)
+        params = [a for a in v.params if a != sn]
+        facts = Facts(v.node, truthy={f"{a}.on_file": True for a in params}, notnone={a: True for a in params})
+
+        def consults(n, outcome, sn=sn):
+            exprs = [x for x in surely_evaluated(n.ast, outcome)] if n.kind == "test" else [x for e in node_exprs(n) for x in surely_evaluated(e, None)]
+            return any((isinstance(x, ast.Call) and _is_gateway_use(x, sn, raising)) or
+                       (isinstance(x, ast.Attribute) and x.attr in raising and isinstance(x.value, ast.Name) and x.value.id == sn) for x in exprs)
+
+        unchecked = must_pass(g, facts, consults)
+
+        def cached_state(e):
+            e = facts.x(e)
+            if not isinstance(e, ast.Attribute):
+                return False
+            root = e
+            while isinstance(root, (ast.Attribute, ast.Subscript)):
+                root = root.value
+            return isinstance(root, ast.Name) and root.id in params and not any(isinstance(x, (ast.Call, ast.Await)) for x in ast.walk(e))
+
+        served = [n for n in g.nodes if n.kind == "return" and n.ast is not None and cached_state(n.ast)]
+        bad = [n for n in served if n in unchecked and not consults(n, None)]
+        res.inst(f"{fi.qualname}: {len(served)} return(s) of an argument's cached state, each after the gateway was consulted", nontrivial=bool(served), ok=not bad)
+        for n in bad:
+            res.find("Workspace", fi.prop or fi.name, "cached state of an argument returned without consulting the file", f"{fi.module.relpath}:{n.lineno}",
+                     f"{fi.qualname} reads the file on other paths but returns `{unparse(facts.x(n.ast))}` without going through the gateway: on a closed "
+                     "workspace the call serves what was cached before the close instead of raising the closed-file error")
+    return res
+
+
+def _is_reader_entry(p, fi, expr) -> bool:
+    """`H5Reader.<function>`: an attribute of the reader class of the package."""
+    r = p.resolve_name(fi.module, expr.value.id) if isinstance(expr.value, ast.Name) else None
+    return bool(r and r[0] == "class" and r[1].name == "H5Reader")
 
 
 def _registries(ctx) -> list:
@@ -620,4 +713,4 @@ def rule_flush(ctx) -> RuleResult:
     return res
 
 
-RULES = [rule_pair, rule_exit, rule_gate, rule_reopen, rule_flush]
+RULES = [rule_pair, rule_exit, rule_gate, rule_reopen, rule_flush, rule_stale]
